@@ -188,7 +188,7 @@ def doc_parse_path(path):
             return None
         if path[i:i + 1] == b"[":
             j = path.find(b"]", i)
-            if j < 0 or not path[i + 1:j].isdigit() or len(path[i + 1:j]) > 9:
+            if j < 0 or not path[i + 1:j].isdigit():
                 return None
             comps.append(int(path[i + 1:j]))
             i = j + 1
